@@ -299,6 +299,9 @@ func sweep(c *core.Case, kinds []string, classes []string, judge func(kind strin
 				n = counts[class]
 			}
 			kcap := sweepCap(c)/len(cls) + 1
+			if kind == "cancelslow" {
+				kcap = kcap / 2
+			}
 			if kind == "blockdl" {
 				kcap = kcap / 4 // every position waits for the deadline
 			}
@@ -463,7 +466,7 @@ func init() {
 				}
 			}
 		}
-		v := sweep(c, []string{"error", "panic", "cancel"}, nil, func(kind string, f []core.Fault, base, o faultOutcome) string {
+		v := sweep(c, []string{"error", "panic", "cancel", "cancelslow"}, nil, func(kind string, f []core.Fault, base, o faultOutcome) string {
 			return closedOnce(o)
 		})
 		return v
